@@ -256,6 +256,78 @@ def decoder_items(p, pb):
     return kind, items
 
 
+def _layout_encoder_path(run, F, T, rule, external, casts, eb, k, spec, p, evs, sfx):
+    """One encoder path of one kind: R-LENPREFIX, layout vs RFC, R-CAST. Returns the layout read off the path."""
+    if any(e.tag != "put" for e in evs):
+        run.ob(rule, "encoder arm for %s is loop-free" % k, False, "unexpected loop", site(eb), key="%s|enc|%s|loop%s" % (rule, k, sfx))
+        return None
+    items = encoder_items(evs)
+    # ---- R-LENPREFIX: first item is the 2-octet value length = size of the rest -------
+    if not items or items[0][0] not in ("const", "len") or items[0][1] != 2:
+        run.ob("R-LENPREFIX", "%s: starts with a 2-octet value length" % k, False, "first emission %r" % (evs[0] if evs else None), site(eb), key="R-LENPREFIX|%s|missing%s" % (k, sfx))
+        body = items
+        prefix = None
+    else:
+        prefix = items[0]
+        body = items[1:]
+    size = {"": 0}
+    bad_item = None
+    for it in body:
+        if it[0] == "int":
+            size[""] += it[1]
+        elif it[0] == "const":
+            size[""] += it[1]
+        elif it[0] == "len":
+            size[""] += it[1]
+        elif it[0] == "bytes":
+            size[it[1]] = size.get(it[1], 0) + 1
+        else:
+            bad_item = it
+    if prefix is not None and bad_item is None:
+        declared = {"": prefix[2]} if prefix[0] == "const" else dict(prefix[2])
+        declared.setdefault("", 0)
+        size = {a: b for a, b in size.items() if b or a == ""}
+        declared = {a: b for a, b in declared.items() if b or a == ""}
+        run.ob("R-LENPREFIX", "%s: value length = size of what follows" % k, declared == size,
+               "declared length %s, emitted body size %s (keys are (variant, field) byte lengths, '' the constant part)" % (declared, size), site(eb),
+               key="R-LENPREFIX|%s|mismatch%s" % (k, sfx))
+    # ---- layout vs RFC table -------------------------------------------------------------
+    got = []
+    for it in body:
+        if it[0] == "int":
+            got.append([it[1], it[2][1]])
+        elif it[0] == "bytes":
+            got.append({"bytes": it[1][1]})
+        elif it[0] == "len":
+            fs = [a for a in it[2] if a != ""]
+            got.append({"len16": fs[0][1]} if (it[1] == 2 and len(fs) == 1 and it[2].get("", 0) == 0 and it[2][fs[0]] == 1) else {"?": tshow(it[3])[:40]})
+        elif it[0] == "const":
+            got.append({"const": it[2], "width": it[1]})
+        else:
+            got.append({"?": repr(it[1])[:40]})
+    if external:
+        run.ob(rule, "encoder layout of %s = RFC 8010 3.9" % k, got == spec["body"], "encoder writes %s, the RFC layout is %s" % (got, spec["body"]), site(eb),
+               key="%s|enc|%s|rfc%s" % (rule, k, sfx))
+    # ---- R-CAST ----------------------------------------------------------------------------
+    adt = F.adts.get("ipp::value::IppValue")
+    ftypes = {}
+    if adt:
+        for v in adt["variants"]:
+            if v["name"] == k:
+                ftypes = {f["name"]: f["ty"] for f in v["fields"]}
+    for it in (body if casts else []):
+        if it[0] == "int" and it[3]:
+            fld = it[2][1]
+            fty = ftypes.get(fld, "?")
+            key = "%s->%s" % (fty, it[3][0])
+            inj = T["injective_casts"].get(key)
+            run.ob("R-CAST", "%s.%s: %s as %s is injective" % (k, fld, fty, it[3][0]), inj is True,
+                   "field %s.%s of type %s is encoded with `as %s`, which %s; the decoded value can differ from the encoded one" % (
+                       k, fld, fty, it[3][0], "is not injective" if inj is False else "is not in the reviewed cast table"), site(eb),
+                   key="R-CAST|%s.%s|%s%s" % (k, fld, key, sfx))
+    return got
+
+
 def r_layout(run, F, T, external=True, rule="R-LAYOUT", casts=True):
     eb, pb = F.body(TO_BYTES), F.body(PARSE)
     if eb is None or pb is None:
@@ -265,112 +337,52 @@ def r_layout(run, F, T, external=True, rule="R-LAYOUT", casts=True):
     for p in paths_of(eb):
         evs = events_of_trace(p.trace)
         for v in arm_variants(p):
-            enc[v] = (p, evs)
+            enc.setdefault(v, []).append((p, evs))
     dec = {}
     for p in paths_of(pb):
         kind, items = decoder_items(p, pb)
         if kind and kind != V + "Other":
-            dec[kind] = (p, items)
+            dec.setdefault(kind, []).append((p, items))
     n_enc = n_dec = 0
     for k, spec in T["kinds"].items():
         vp = V + k
         if vp not in enc:
             run.ob(rule, "encoder arm for %s" % k, False, "no arm", site(eb), key="%s|enc|%s|missing" % (rule, k))
             continue
-        p, evs = enc[vp]
-        if any(e.tag != "put" for e in evs):
-            run.ob(rule, "encoder arm for %s is loop-free" % k, False, "unexpected loop", site(eb), key="%s|enc|%s|loop" % (rule, k))
-            continue
+        # every path that encodes this kind (a guarded arm adds a second one) and every path that decodes it must have the layout
         n_enc += 1
-        items = encoder_items(evs)
-        # ---- R-LENPREFIX: first item is the 2-octet value length = size of the rest -------
-        if not items or items[0][0] not in ("const", "len") or items[0][1] != 2:
-            run.ob("R-LENPREFIX", "%s: starts with a 2-octet value length" % k, False, "first emission %r" % (evs[0] if evs else None), site(eb), key="R-LENPREFIX|%s|missing" % k)
-            body = items
-            prefix = None
-        else:
-            prefix = items[0]
-            body = items[1:]
-        size = {"": 0}
-        bad_item = None
-        for it in body:
-            if it[0] == "int":
-                size[""] += it[1]
-            elif it[0] == "const":
-                size[""] += it[1]
-            elif it[0] == "len":
-                size[""] += it[1]
-            elif it[0] == "bytes":
-                size[it[1]] = size.get(it[1], 0) + 1
-            else:
-                bad_item = it
-        if prefix is not None and bad_item is None:
-            declared = {"": prefix[2]} if prefix[0] == "const" else dict(prefix[2])
-            declared.setdefault("", 0)
-            size = {a: b for a, b in size.items() if b or a == ""}
-            declared = {a: b for a, b in declared.items() if b or a == ""}
-            run.ob("R-LENPREFIX", "%s: value length = size of what follows" % k, declared == size,
-                   "declared length %s, emitted body size %s (keys are (variant, field) byte lengths, '' the constant part)" % (declared, size), site(eb),
-                   key="R-LENPREFIX|%s|mismatch" % k)
-        # ---- layout vs RFC table -------------------------------------------------------------
-        got = []
-        for it in body:
-            if it[0] == "int":
-                got.append([it[1], it[2][1]])
-            elif it[0] == "bytes":
-                got.append({"bytes": it[1][1]})
-            elif it[0] == "len":
-                fs = [a for a in it[2] if a != ""]
-                got.append({"len16": fs[0][1]} if (it[1] == 2 and len(fs) == 1 and it[2].get("", 0) == 0 and it[2][fs[0]] == 1) else {"?": tshow(it[3])[:40]})
-            elif it[0] == "const":
-                got.append({"const": it[2], "width": it[1]})
-            else:
-                got.append({"?": repr(it[1])[:40]})
-        if external:
-            run.ob(rule, "encoder layout of %s = RFC 8010 3.9" % k, got == spec["body"], "encoder writes %s, the RFC layout is %s" % (got, spec["body"]), site(eb),
-                   key="%s|enc|%s|rfc" % (rule, k))
-        # ---- decoder ---------------------------------------------------------------------------
+        gots = []
+        for ei, (p, evs) in enumerate(enc[vp]):
+            got = _layout_encoder_path(run, F, T, rule, external, casts, eb, k, spec, p, evs, "" if ei == 0 else "|path%d" % ei)
+            if got is not None:
+                gots.append(got)
         if k == "Other":
             continue
         if vp not in dec:
             run.ob(rule, "decoder arm for %s" % k, False, "parse never constructs %s" % k, site(pb), key="%s|dec|%s|missing" % (rule, k))
             continue
         n_dec += 1
-        dp, ditems = dec[vp]
-        dgot = []
-        for it in ditems:
-            if it[0] == "int":
-                dgot.append([it[1], it[2]])
-            elif it[0] == "lenstring":
-                dgot.append({"len16": it[1]})
-                dgot.append({"bytes": it[1]})
-            elif it[0] == "text":
-                dgot.append({"bytes": it[1]})
-            elif it[0] == "raw":
-                dgot.append({"bytes": it[1]})
-            else:
-                dgot.append({"?": str(it[1])})
-        if external:
-            run.ob(rule, "decoder layout of %s = RFC 8010 3.9" % k, dgot == spec["body"], "decoder reads %s, the RFC layout is %s" % (dgot, spec["body"]), site(pb),
-                   key="%s|dec|%s|rfc" % (rule, k))
-        run.ob(rule, "encoder and decoder agree on %s" % k, dgot == got, "encoder writes %s, decoder reads %s" % (got, dgot), site(pb), key="%s|agree|%s" % (rule, k))
-        # ---- R-CAST ----------------------------------------------------------------------------
-        adt = F.adts.get("ipp::value::IppValue")
-        ftypes = {}
-        if adt:
-            for v in adt["variants"]:
-                if v["name"] == k:
-                    ftypes = {f["name"]: f["ty"] for f in v["fields"]}
-        for it in (body if casts else []):
-            if it[0] == "int" and it[3]:
-                fld = it[2][1]
-                fty = ftypes.get(fld, "?")
-                key = "%s->%s" % (fty, it[3][0])
-                inj = T["injective_casts"].get(key)
-                run.ob("R-CAST", "%s.%s: %s as %s is injective" % (k, fld, fty, it[3][0]), inj is True,
-                       "field %s.%s of type %s is encoded with `as %s`, which %s; the decoded value can differ from the encoded one" % (
-                           k, fld, fty, it[3][0], "is not injective" if inj is False else "is not in the reviewed cast table"), site(eb),
-                       key="R-CAST|%s.%s|%s" % (k, fld, key))
+        for di, (dp, ditems) in enumerate(dec[vp]):
+            sfx = "" if di == 0 else "|path%d" % di
+            dgot = []
+            for it in ditems:
+                if it[0] == "int":
+                    dgot.append([it[1], it[2]])
+                elif it[0] == "lenstring":
+                    dgot.append({"len16": it[1]})
+                    dgot.append({"bytes": it[1]})
+                elif it[0] == "text":
+                    dgot.append({"bytes": it[1]})
+                elif it[0] == "raw":
+                    dgot.append({"bytes": it[1]})
+                else:
+                    dgot.append({"?": str(it[1])})
+            if external:
+                run.ob(rule, "decoder layout of %s = RFC 8010 3.9" % k, dgot == spec["body"], "decoder reads %s, the RFC layout is %s" % (dgot, spec["body"]), site(pb),
+                       key="%s|dec|%s|rfc%s" % (rule, k, sfx))
+            for gi, got in enumerate(gots):
+                run.ob(rule, "encoder and decoder agree on %s" % k, dgot == got, "encoder writes %s, decoder reads %s" % (got, dgot), site(pb),
+                       key="%s|agree|%s%s%s" % (rule, k, sfx, "" if gi == 0 else "|enc%d" % gi))
     # helper: get_len_string = u16 length then that many bytes
     gb = F.body("ipp::value::get_len_string")
     if gb is None:
